@@ -271,13 +271,13 @@ theorem lift_smem1 (op D B off : Nat) (hD : D < 9) (hB : B + 1 < 9)
     (hex : ∀ st, exec false st (((P.code.drop k).take 8).take 8) =
       some (name, (List.range 1).flatMap fun i => wrS32 st (D + i) (st.memRead (sAddr st B off + 4 * i) 4)))
     (st : St) (t : T) (h : Tracks st t) (hpc : t.pc = base + k) (a b0 b1 : Nat)
-    (hb0 : t.s B = b0) (hb1 : t.s (B + 1) = b1) (ha : b0 + b1 * 2 ^ 32 + off = a) (hnw : a + 4 ≤ 2 ^ 64) :
+    (hb0 : t.s B = b0) (hb1 : t.s (B + 1) = b1) (ha : b0 + b1 * 2 ^ 32 + off = a) (ha4 : a % 4 = 0) (hnw : a + 4 ≤ 2 ^ 64) :
     ∃ st', step P base st = .ok (st', .next) ∧
       Tracks st' ((t.setS D (rd32 t.mem a % 2 ^ 32)).setPc (base + k + 8)) := by
   obtain ⟨V, hV, e1, e2, e3, e4, e5, e6⟩ := h
   have hm : V.mem = t.mem := funext e6
   obtain ⟨st', hs, hv⟩ := step_smem P hP base k op 1 D B off (by omega) (by omega) (by omega) hd name hex st V hV
-    (e1.trans hpc) a (by rw [e4 B (by omega), e4 (B + 1) hB, hb0, hb1]; exact ha) (by omega)
+    (e1.trans hpc) a (by rw [e4 B (by omega), e4 (B + 1) hB, hb0, hb1]; exact ha) ha4 (by omega)
   refine ⟨st', hs, _, hv, rfl, by simp only [T.setPc_pc, T.setPc_exec, T.setPc_vcc, T.setPc_mem, T.setPc_s, T.setPc_v, T.setExec_pc, T.setExec_exec, T.setExec_vcc, T.setExec_mem, T.setExec_s, T.setExec_v, T.setVcc_pc, T.setVcc_exec, T.setVcc_vcc, T.setVcc_mem, T.setVcc_s, T.setVcc_v, T.setMem_pc, T.setMem_exec, T.setMem_vcc, T.setMem_mem, T.setMem_s, T.setMem_v, T.setS_pc, T.setV_pc, T.setS_exec, T.setV_exec, T.setS_vcc, T.setV_vcc, T.setS_mem, T.setV_mem, T.setS_v, T.setV_s]; exact e2, by simp only [T.setPc_pc, T.setPc_exec, T.setPc_vcc, T.setPc_mem, T.setPc_s, T.setPc_v, T.setExec_pc, T.setExec_exec, T.setExec_vcc, T.setExec_mem, T.setExec_s, T.setExec_v, T.setVcc_pc, T.setVcc_exec, T.setVcc_vcc, T.setVcc_mem, T.setVcc_s, T.setVcc_v, T.setMem_pc, T.setMem_exec, T.setMem_vcc, T.setMem_mem, T.setMem_s, T.setMem_v, T.setS_pc, T.setV_pc, T.setS_exec, T.setV_exec, T.setS_vcc, T.setV_vcc, T.setS_mem, T.setV_mem, T.setS_v, T.setV_s]; exact e3, ?_,
     (fun r l hr hl => by simp only [T.setPc_pc, T.setPc_exec, T.setPc_vcc, T.setPc_mem, T.setPc_s, T.setPc_v, T.setExec_pc, T.setExec_exec, T.setExec_vcc, T.setExec_mem, T.setExec_s, T.setExec_v, T.setVcc_pc, T.setVcc_exec, T.setVcc_vcc, T.setVcc_mem, T.setVcc_s, T.setVcc_v, T.setMem_pc, T.setMem_exec, T.setMem_vcc, T.setMem_mem, T.setMem_s, T.setMem_v, T.setS_pc, T.setV_pc, T.setS_exec, T.setV_exec, T.setS_vcc, T.setV_vcc, T.setS_mem, T.setV_mem, T.setS_v, T.setV_s]; exact e5 r l hr hl), (fun a => by simp only [T.setPc_pc, T.setPc_exec, T.setPc_vcc, T.setPc_mem, T.setPc_s, T.setPc_v, T.setExec_pc, T.setExec_exec, T.setExec_vcc, T.setExec_mem, T.setExec_s, T.setExec_v, T.setVcc_pc, T.setVcc_exec, T.setVcc_vcc, T.setVcc_mem, T.setVcc_s, T.setVcc_v, T.setMem_pc, T.setMem_exec, T.setMem_vcc, T.setMem_mem, T.setMem_s, T.setMem_v, T.setS_pc, T.setV_pc, T.setS_exec, T.setV_exec, T.setS_vcc, T.setV_vcc, T.setS_mem, T.setV_mem, T.setS_v, T.setV_s]; exact e6 a)⟩
   intro i hi
@@ -294,13 +294,13 @@ theorem lift_smem2 (op D B off : Nat) (hD : D + 1 < 9) (hB : B + 1 < 9)
     (hex : ∀ st, exec false st (((P.code.drop k).take 8).take 8) =
       some (name, (List.range 2).flatMap fun i => wrS32 st (D + i) (st.memRead (sAddr st B off + 4 * i) 4)))
     (st : St) (t : T) (h : Tracks st t) (hpc : t.pc = base + k) (a b0 b1 : Nat)
-    (hb0 : t.s B = b0) (hb1 : t.s (B + 1) = b1) (ha : b0 + b1 * 2 ^ 32 + off = a) (hnw : a + 8 ≤ 2 ^ 64) :
+    (hb0 : t.s B = b0) (hb1 : t.s (B + 1) = b1) (ha : b0 + b1 * 2 ^ 32 + off = a) (ha4 : a % 4 = 0) (hnw : a + 8 ≤ 2 ^ 64) :
     ∃ st', step P base st = .ok (st', .next) ∧
       Tracks st' (((t.setS D (rd32 t.mem a % 2 ^ 32)).setS (D + 1) (rd32 t.mem (a + 4) % 2 ^ 32)).setPc (base + k + 8)) := by
   obtain ⟨V, hV, e1, e2, e3, e4, e5, e6⟩ := h
   have hm : V.mem = t.mem := funext e6
   obtain ⟨st', hs, hv⟩ := step_smem P hP base k op 2 D B off (by omega) (by omega) (by omega) hd name hex st V hV
-    (e1.trans hpc) a (by rw [e4 B (by omega), e4 (B + 1) hB, hb0, hb1]; exact ha) (by omega)
+    (e1.trans hpc) a (by rw [e4 B (by omega), e4 (B + 1) hB, hb0, hb1]; exact ha) ha4 (by omega)
   refine ⟨st', hs, _, hv, rfl, by simp only [T.setPc_pc, T.setPc_exec, T.setPc_vcc, T.setPc_mem, T.setPc_s, T.setPc_v, T.setExec_pc, T.setExec_exec, T.setExec_vcc, T.setExec_mem, T.setExec_s, T.setExec_v, T.setVcc_pc, T.setVcc_exec, T.setVcc_vcc, T.setVcc_mem, T.setVcc_s, T.setVcc_v, T.setMem_pc, T.setMem_exec, T.setMem_vcc, T.setMem_mem, T.setMem_s, T.setMem_v, T.setS_pc, T.setV_pc, T.setS_exec, T.setV_exec, T.setS_vcc, T.setV_vcc, T.setS_mem, T.setV_mem, T.setS_v, T.setV_s]; exact e2, by simp only [T.setPc_pc, T.setPc_exec, T.setPc_vcc, T.setPc_mem, T.setPc_s, T.setPc_v, T.setExec_pc, T.setExec_exec, T.setExec_vcc, T.setExec_mem, T.setExec_s, T.setExec_v, T.setVcc_pc, T.setVcc_exec, T.setVcc_vcc, T.setVcc_mem, T.setVcc_s, T.setVcc_v, T.setMem_pc, T.setMem_exec, T.setMem_vcc, T.setMem_mem, T.setMem_s, T.setMem_v, T.setS_pc, T.setV_pc, T.setS_exec, T.setV_exec, T.setS_vcc, T.setV_vcc, T.setS_mem, T.setV_mem, T.setS_v, T.setV_s]; exact e3, ?_,
     (fun r l hr hl => by simp only [T.setPc_pc, T.setPc_exec, T.setPc_vcc, T.setPc_mem, T.setPc_s, T.setPc_v, T.setExec_pc, T.setExec_exec, T.setExec_vcc, T.setExec_mem, T.setExec_s, T.setExec_v, T.setVcc_pc, T.setVcc_exec, T.setVcc_vcc, T.setVcc_mem, T.setVcc_s, T.setVcc_v, T.setMem_pc, T.setMem_exec, T.setMem_vcc, T.setMem_mem, T.setMem_s, T.setMem_v, T.setS_pc, T.setV_pc, T.setS_exec, T.setV_exec, T.setS_vcc, T.setV_vcc, T.setS_mem, T.setV_mem, T.setS_v, T.setV_s]; exact e5 r l hr hl), (fun a => by simp only [T.setPc_pc, T.setPc_exec, T.setPc_vcc, T.setPc_mem, T.setPc_s, T.setPc_v, T.setExec_pc, T.setExec_exec, T.setExec_vcc, T.setExec_mem, T.setExec_s, T.setExec_v, T.setVcc_pc, T.setVcc_exec, T.setVcc_vcc, T.setVcc_mem, T.setVcc_s, T.setVcc_v, T.setMem_pc, T.setMem_exec, T.setMem_vcc, T.setMem_mem, T.setMem_s, T.setMem_v, T.setS_pc, T.setV_pc, T.setS_exec, T.setV_exec, T.setS_vcc, T.setV_vcc, T.setS_mem, T.setV_mem, T.setS_v, T.setV_s]; exact e6 a)⟩
   intro i hi
@@ -320,14 +320,14 @@ theorem lift_smem4 (op D B off : Nat) (hD : D + 3 < 9) (hB : B + 1 < 9)
     (hex : ∀ st, exec false st (((P.code.drop k).take 8).take 8) =
       some (name, (List.range 4).flatMap fun i => wrS32 st (D + i) (st.memRead (sAddr st B off + 4 * i) 4)))
     (st : St) (t : T) (h : Tracks st t) (hpc : t.pc = base + k) (a b0 b1 : Nat)
-    (hb0 : t.s B = b0) (hb1 : t.s (B + 1) = b1) (ha : b0 + b1 * 2 ^ 32 + off = a) (hnw : a + 16 ≤ 2 ^ 64) :
+    (hb0 : t.s B = b0) (hb1 : t.s (B + 1) = b1) (ha : b0 + b1 * 2 ^ 32 + off = a) (ha4 : a % 4 = 0) (hnw : a + 16 ≤ 2 ^ 64) :
     ∃ st', step P base st = .ok (st', .next) ∧
       Tracks st' (((((t.setS D (rd32 t.mem a % 2 ^ 32)).setS (D + 1) (rd32 t.mem (a + 4) % 2 ^ 32)).setS (D + 2)
         (rd32 t.mem (a + 8) % 2 ^ 32)).setS (D + 3) (rd32 t.mem (a + 12) % 2 ^ 32)).setPc (base + k + 8)) := by
   obtain ⟨V, hV, e1, e2, e3, e4, e5, e6⟩ := h
   have hm : V.mem = t.mem := funext e6
   obtain ⟨st', hs, hv⟩ := step_smem P hP base k op 4 D B off (by omega) (by omega) (by omega) hd name hex st V hV
-    (e1.trans hpc) a (by rw [e4 B (by omega), e4 (B + 1) hB, hb0, hb1]; exact ha) (by omega)
+    (e1.trans hpc) a (by rw [e4 B (by omega), e4 (B + 1) hB, hb0, hb1]; exact ha) ha4 (by omega)
   refine ⟨st', hs, _, hv, rfl, by simp only [T.setPc_pc, T.setPc_exec, T.setPc_vcc, T.setPc_mem, T.setPc_s, T.setPc_v, T.setExec_pc, T.setExec_exec, T.setExec_vcc, T.setExec_mem, T.setExec_s, T.setExec_v, T.setVcc_pc, T.setVcc_exec, T.setVcc_vcc, T.setVcc_mem, T.setVcc_s, T.setVcc_v, T.setMem_pc, T.setMem_exec, T.setMem_vcc, T.setMem_mem, T.setMem_s, T.setMem_v, T.setS_pc, T.setV_pc, T.setS_exec, T.setV_exec, T.setS_vcc, T.setV_vcc, T.setS_mem, T.setV_mem, T.setS_v, T.setV_s]; exact e2, by simp only [T.setPc_pc, T.setPc_exec, T.setPc_vcc, T.setPc_mem, T.setPc_s, T.setPc_v, T.setExec_pc, T.setExec_exec, T.setExec_vcc, T.setExec_mem, T.setExec_s, T.setExec_v, T.setVcc_pc, T.setVcc_exec, T.setVcc_vcc, T.setVcc_mem, T.setVcc_s, T.setVcc_v, T.setMem_pc, T.setMem_exec, T.setMem_vcc, T.setMem_mem, T.setMem_s, T.setMem_v, T.setS_pc, T.setV_pc, T.setS_exec, T.setV_exec, T.setS_vcc, T.setV_vcc, T.setS_mem, T.setV_mem, T.setS_v, T.setV_s]; exact e3, ?_,
     (fun r l hr hl => by simp only [T.setPc_pc, T.setPc_exec, T.setPc_vcc, T.setPc_mem, T.setPc_s, T.setPc_v, T.setExec_pc, T.setExec_exec, T.setExec_vcc, T.setExec_mem, T.setExec_s, T.setExec_v, T.setVcc_pc, T.setVcc_exec, T.setVcc_vcc, T.setVcc_mem, T.setVcc_s, T.setVcc_v, T.setMem_pc, T.setMem_exec, T.setMem_vcc, T.setMem_mem, T.setMem_s, T.setMem_v, T.setS_pc, T.setV_pc, T.setS_exec, T.setV_exec, T.setS_vcc, T.setV_vcc, T.setS_mem, T.setV_mem, T.setS_v, T.setV_s]; exact e5 r l hr hl), (fun a => by simp only [T.setPc_pc, T.setPc_exec, T.setPc_vcc, T.setPc_mem, T.setPc_s, T.setPc_v, T.setExec_pc, T.setExec_exec, T.setExec_vcc, T.setExec_mem, T.setExec_s, T.setExec_v, T.setVcc_pc, T.setVcc_exec, T.setVcc_vcc, T.setVcc_mem, T.setVcc_s, T.setVcc_v, T.setMem_pc, T.setMem_exec, T.setMem_vcc, T.setMem_mem, T.setMem_s, T.setMem_v, T.setS_pc, T.setV_pc, T.setS_exec, T.setV_exec, T.setS_vcc, T.setV_vcc, T.setS_mem, T.setV_mem, T.setS_v, T.setV_s]; exact e6 a)⟩
   intro i hi
